@@ -1,11 +1,11 @@
 (** * Entry points the generic OCaml driver dispatches on. Model only, no proofs. *)
 From Coq Require Import List NArith ZArith Bool Floats.
-From HC Require Import Map2.Orbit2 Extract.Tok Extract.Run2 Extract.Query2 Extract.Oracle2 Extract.Sew2Oracle Extract.KernOracle Extract.GeomRun Extract.GridRun.
+From HC Require Import Map2.Orbit2 Extract.Tok Extract.Run2 Extract.Query2 Extract.Oracle2 Extract.Sew2Oracle Extract.KernOracle Extract.GeomRun Extract.GridRun Extract.IORun.
 Import ListNotations.
 Open Scope N_scope.
 Definition entry (which : N) (ts : list tok) : list (list tok) :=
   match which with
-  | 1 => run_case2 query2 ts
+  | 1 => run_case2 (fun code st => if (code =? 8)%Z then query2 st else io_special st code) ts
   | 2 => oracle_wf2_step ts
   | 3 => oracle_query2 ts
   | 4 => oracle_err_noop ts
@@ -18,6 +18,9 @@ Definition entry (which : N) (ts : list tok) : list (list tok) :=
   | 21 => oracle_geom_law ts
   | 30 => run_grid2 ts
   | 31 => oracle_grid2 ts
+  | 40 => run_cmap_build ts
+  | 41 => oracle_cmap_build ts
+  | 42 => oracle_roundtrip ts
   | 98 => match obs_state ts with Some st => map (fun d => tN d :: tN (cid st PVertex d) :: vtok (vtx st d)) (all_darts st) | None => [] end
   | 99 => match obs_state ts with Some st => vertex_multiset st | None => [] end
   | _ => [[TZ (-2)]]
